@@ -37,7 +37,13 @@ class Helper:
 
     @property
     def id(self):
-        return f"{self.desc_cls.name}.{self.impl.name}"
+        return f"{self.desc_cls.name}.{self.impl_name}"
+
+    @property
+    def impl_name(self):
+        """The name the descriptor class knows the implementation by (the function may be a module-level one
+        bound as `name = staticmethod(_name)`)."""
+        return _IMPL_ATTR.get(self.impl.qualname, self.impl.name)
 
     def params(self):
         a = self.impl.node.args
@@ -72,6 +78,9 @@ def _registry_classes(p: Program, regname: str) -> List[ClassInfo]:
     raise AnalysisError(f"registry {regname} not found")
 
 
+_IMPL_ATTR: Dict[str, str] = {}      # implementation qualname -> the attribute name it is reached by on the descriptor class
+
+
 def _impl_of(p: Program, ci: ClassInfo):
     """Implementation function bound by the descriptor's build_method."""
     c, m = p.lookup_method(ci, "build_method")
@@ -88,11 +97,13 @@ def _impl_of(p: Program, ci: ClassInfo):
                 bound = [(_dotted(a) or "") for a in node.args[1:]]
                 c2, m2 = p.lookup_method(ci, impl)
                 if isinstance(m2, list):
+                    _IMPL_ATTR[m2[0].qualname] = impl
                     return m2[0], bound, build
             if d.endswith("MethodBuilder") and len(node.args) >= 2 and isinstance(node.args[1], ast.Attribute) \
                     and _dotted(node.args[1].value) == "self":
                 c2, m2 = p.lookup_method(ci, node.args[1].attr)
                 if isinstance(m2, list):
+                    _IMPL_ATTR[m2[0].qualname] = node.args[1].attr
                     return m2[0], [], build
     # 2. `return self.<impl>`
     for node in ast.walk(build.node):
@@ -100,6 +111,7 @@ def _impl_of(p: Program, ci: ClassInfo):
                 and _dotted(node.value.value) == "self":
             c2, m2 = p.lookup_method(ci, node.value.attr)
             if isinstance(m2, list):
+                _IMPL_ATTR[m2[0].qualname] = node.value.attr
                 return m2[0], [], build
     # 3. closure defined in build_method and returned
     for node in build.node.body:
@@ -133,7 +145,7 @@ def discover(p: Program) -> Dict[str, List[Helper]]:
 
 def core_impl(helpers, method_name_hint: str) -> Helper:
     for h in helpers["core"]:
-        if h.impl.name.strip("_") == method_name_hint.strip("_"):
+        if h.impl_name.strip("_") == method_name_hint.strip("_"):
             return h
     raise AnalysisError(f"core method {method_name_hint} not found")
 
